@@ -25,11 +25,20 @@ open Otel Otel.RelAcq
 
 /-! ## (c) the orders in the source are the ones the proofs need -/
 
+/-- `SpinLockMutex`: both `flag_.exchange` acquire or stronger, `unlock`'s store release or stronger -/
+theorem gen_spin_orders_sufficient : Spin.genOrders.ok = true := by decide
+/-- `AtomicUniquePtr`: `SwapIfNull`'s successful compare_exchange release or stronger, the exchanges of `Swap` / `Reset`
+    acquire or stronger -/
+theorem gen_slot_orders_sufficient : Slot.genOrders.ok = true := by decide
+/-- `CircularBuffer`: `tail_ += n` release or stronger, `Add`'s load of `tail_` acquire or stronger -/
+theorem gen_headtail_orders_sufficient : HT.genOrders.ok = true := by decide
+
 /-- both `flag_.exchange` are acquire or stronger and `unlock`'s store is release or stronger; `SwapIfNull`'s successful
     compare_exchange is release or stronger and the exchanges of `Swap` / `Reset` are acquire or stronger; `tail_ += n` is
-    release or stronger and `Add`'s load of `tail_` acquire or stronger.  Weakening any of them in the source makes this
-    `decide` fail. -/
-theorem gen_orders_sufficient : Spin.genOrders.ok = true ∧ Slot.genOrders.ok = true ∧ HT.genOrders.ok = true := by decide
+    release or stronger and `Add`'s load of `tail_` acquire or stronger.  Weakening any of them in the source makes the
+    corresponding `decide` above fail. -/
+theorem gen_orders_sufficient : Spin.genOrders.ok = true ∧ Slot.genOrders.ok = true ∧ HT.genOrders.ok = true :=
+  ⟨gen_spin_orders_sufficient, gen_slot_orders_sufficient, gen_headtail_orders_sufficient⟩
 
 /-- the orders the source has at the time of writing (the demonstrations and witnesses below use these fixed records, not
     the generated ones, so that a *strengthened* order in the source changes nothing but `Gen/MemOrder.lean`) -/
